@@ -29,6 +29,8 @@ CANARIES = [
     {'name': 'match_method-memoises', 'file': 'clastic/route.py',
      'old': "    def match_method(self, method):\n", 'new': "    def match_method(self, method):\n        self._last_method = method\n"},
 ]
+# the dispatch loop contract is proof support shared with C06-C08
+OWN = [r'/frame$', r'^C12\.', r'_dispatch_wsgi/ensures']
 QUICK_CANARIES = 2
 
 # methods allowed to store into attributes of a shared object: configuration time only
